@@ -55,6 +55,8 @@ def generate(seed, tier, cfg):
         # dotted values, rests), the other half the full subset (known findings KF-C19-*-export-rich)
         rich = k.random() < 0.5
     asc = gen.gen_score(st.workload, profile=("kernmei" if fmt == "kern" else ("mei2" if cfg == "mei-in" else "mei")) if rich else "simple", size=gen.pick_size(tier, st.knobs))
+    if cfg == "mei-in" and k.random() < 0.06:
+        asc = tiny_compound(k)
     mid = False
     if cfg.endswith("-rt") and rich and k.random() < 0.5:
         # middle level: the full subset minus what the writers are known not to handle (ties, grace notes,
@@ -388,6 +390,36 @@ def run_rt(res, fs, asc, kn, fmt, path, faults, shape):
                 if v["oracle"].startswith("X"):
                     v["site"] = "rich:%s:%s" % (fmt, export_reason(asc, fmt, v))
                     v["oracle"] = "X-export-roundtrip"
+
+
+def tiny_compound(k):
+    """a boundary score: compound meter whose beat (an eighth) is a fraction of one division - dotted halves only,
+    one division per quarter - with a silent measure in the middle (a measure rest)"""
+    beats = k.choice((6, 6, 9, 3, 12))
+    q = k.choice((1, 1, 3))
+    L = beats * q // 2 if (beats * q) % 2 == 0 else None
+    if L is None:
+        beats, q, L = 6, 1, 3
+    sym = {6: {"type": "half", "dots": 1}, 12: {"type": "whole", "dots": 1}}.get(beats)
+    nm = 3
+    notes = []
+    for m in (0, 2):
+        if sym is not None:
+            notes.append({"id": "p1n%d" % (m + 1), "kind": "note", "t": m * L, "e": (m + 1) * L, "voice": 1, "staff": 1, "sym": dict(sym), "m": m, "g": None, "step": "CDE"[m], "alter": None, "octave": 4})
+        else:
+            # 9/8 and 3/8: dotted quarters (3/2 quarters each) need two divisions per quarter
+            pass
+    if sym is None:
+        beats, q, L, sym = 6, q if q != 3 else 1, 3 * (q if q != 3 else 1), {"type": "half", "dots": 1}
+        notes = [{"id": "p1n%d" % (m + 1), "kind": "note", "t": m * L, "e": (m + 1) * L, "voice": 1, "staff": 1, "sym": dict(sym), "m": m, "g": None, "step": "CDE"[m], "alter": None, "octave": 4} for m in (0, 2)]
+    part = {
+        "id": "P1", "name": "Part P1", "abbr": None, "qdivs": [[0, q]], "nstaves": 1, "end": nm * L,
+        "measures": [{"s": m * L, "e": (m + 1) * L, "number": m + 1, "name": str(m + 1)} for m in range(nm)],
+        "timesigs": [{"t": 0, "beats": beats, "beat_type": 8}], "keysigs": [{"t": 0, "fifths": 0, "mode": None}],
+        "clefs": [{"t": 0, "staff": 1, "sign": "G", "line": 2, "oct": 0}],
+        "notes": notes, "slurs": [], "tuplets": [], "dirs": [], "tempos": [], "repeats": [], "endings": [], "nav": [], "fermatas": [],
+    }
+    return {"id": None, "parts": [part], "groups": None}
 
 
 def strip_unsupported(asc, fmt):
